@@ -64,6 +64,7 @@ def build_pandora_verif(ctx):
 RULE = ("non-trivial: line/setters cases inside the guard of C06_line_roundtrip; aggr/engine cases with at least 2 reports; "
         "signal / failed-run / normal-end shots in which at least one report was complete before the cancel; distinct = distinct case lines")
 TRUSTED = [
+    "translator harness/cmd/translate gofn-phoutrun (phoutAggregator.Run as traced IMP syntax: selects answered by the oracle, deferred block before every return, labelled break as a flag) + IMP semantics of Lib/Imp.v",
     "translator harness/cmd/translate phout (field keys compiled from /repo through the verif hook; go/ast pattern over cli.awaitPandoraTermination for gen_cli_signal_waits)",
     "extraction: ExtrOcamlBasic only; OCaml driver ocaml/C06/main.ml + ocaml/common/conv.ml (zarith for decimal I/O; sample-of-id function duplicated from the Go harness; lazy-receive schedule reconstruction for trace acceptance)",
     "correspondence harness harness/cmd/hC06: verif hook netsample.VerifAppendPhout/VerifNewSample, real netsample.NewPhout / aggregator.NewJSONLinesAggregator / NewEncoderAggregator on afero MemMapFs, real engine.Engine, pandora-verif subprocess (cli.Run + test gun with unbuffered side log); for results on a shared stream os.Stdout / os.Stderr are pointed at a scratch file while the aggregator is built; fault-injecting file systems (stalling, failing after n bytes, read-only)",
@@ -80,9 +81,12 @@ ASSUME = [
 def run(ctx):
     cov = {"rule": RULE, "evaluations": 0, "distinct_nontrivial": 0}
     ok_t = common.translate(ctx, "phout", "PhoutGen.v")
+    # phoutAggregator.Run re-read as traced IMP syntax (design/GOFN.md); a failing translator is recorded as broken
+    common.translate(ctx, "gofn-phoutrun", "GoFnPhoutRunGen.v")
     model_ok = ok_t and ctx.coq(["Extract/ExtractC06.vo"], what="model+extraction")
     if model_ok:
-        ctx.properties(extra_files=["Gen/Phout_bridge.v"])
+        # Gen/GoFnPhoutRun_bridge.v: Run = the phases of Model/Aggregator.v call by call (proofs Proofs/PhoutRunProofs.v)
+        ctx.properties(extra_files=["Gen/Phout_bridge.v", "Gen/GoFnPhoutRun_bridge.v"])
     h = ctx.build_harness("hC06")
     m = ctx.ocaml_model("mC06", "C06_model", "C06") if model_ok else None
     pdir, pbin = build_pandora_verif(ctx)
